@@ -100,6 +100,10 @@ NON_IDENTIFIER_KEYED: List[str] = [
 ]
 
 
+# long containers whose differently typed elements come late
+LONG_CONTAINERS: List[str] = ["[0] * 1200 + ['a']", "[0] * 1200 + [None, 'a']", "set(range(1500)) | {'a', None}", "[[0]] * 1100 + [['a']]"]
+
+
 def depth1() -> List[str]:
     return list(ATOMS) + containers(ATOMS, REPS, REPS3) + STR_SUBCLASS_KEYED + NON_IDENTIFIER_KEYED
 
